@@ -622,6 +622,9 @@ impl Future for ServerWorker {
             }
         }
 
+        #[cfg(actix_net_verif)]
+        crate::accept::verif::yield_point(crate::accept::verif::Point::WorkerAfterStopCheck);
+
         match this.state {
             WorkerState::Unavailable => match this.check_readiness(cx) {
                 Ok(true) => {
